@@ -1,2 +1,3 @@
 import AtsimModel.Driver.Pair
 import AtsimModel.Driver.Eam
+import AtsimModel.Driver.Range
